@@ -36,6 +36,23 @@ Definition tab_deflate (t : dtab) (m : string) : string :=
   match assoc m t with Some r => r | None => "" end.
 Definition no_soap (s : string) : option string := None.
 
+(* observed SHA-1 digests of the entityIDs of a case; anything else is "" *)
+Definition tab_sha1 (t : list (string * string)) (e : string) : string :=
+  match assoc e t with Some d => d | None => "" end.
+
+(* one step on a long-lived resolver (a real Saml2Client / Server) *)
+Inductive fstep :=
+| FLoad (fed : federation) (sm : fsourcemap)         (* Entity(config with these sources) or reload_metadata; self.sourceid afterwards *)
+| FResolve (eid handle : string) (idx : nat) (r : role) (art : string) (dest : ares).
+    (* create_artifact / use_artifact at the issuer, apply_binding(HTTP-Artifact), SAMLart read from the URL,
+       artifact2destination at the resolver *)
+
+Definition desc_eqb (a b : descriptor) : bool := opt_eqb attrs_eqb a b.
+Definition entity_eqb (a b : entity) : bool := opt_eqb (list_eqb desc_eqb) a b.
+Definition fsm_eqb (a b : fsourcemap) : bool :=
+  list_eqb (fun x y => String.eqb (fst x) (fst y) && entity_eqb (fst (snd x)) (fst (snd y))
+                       && entity_eqb (snd (snd x)) (snd (snd y))) a b.
+
 Inductive case :=
 (* ---- the model of the standard library against the standard library *)
 | KB64enc (b enc : string)                                   (* base64.b64encode(b) *)
@@ -56,7 +73,41 @@ Inductive case :=
 | KSoap (t : string) (env : option string) (canon_sent canon_received : option string)
 | KUnravel (txt : string) (b : binding) (zt : ztab) (res : ures)
 | KArt (x : art_in) (art : string) (dest : ares)
-| KArtRaw (sm : sourcemap) (art : string) (dest : ares).
+| KArtRaw (sm : sourcemap) (art : string) (dest : ares)
+| KArtFed (sha : list (string * string)) (steps : list fstep).
+
+(* the model follows the steps with its own self.sourceid *)
+Fixpoint fed_agrees (sha : string -> string) (sm : fsourcemap) (steps : list fstep) : bool :=
+  match steps with
+  | [] => true
+  | FLoad fed obs :: r => let m := store_source_id sha fed in fsm_eqb m obs && fed_agrees sha m r
+  | FResolve eid h idx ro art dest :: r =>
+      String.eqb (create_artifact sha eid h idx) art
+      && ares_eqb (artifact2destination (project ro sm) art) dest
+      && fed_agrees sha sm r
+  end.
+
+Definition fres_of (cur : federation) (eid : string) (idx : nat) (ro : role) : fres_in :=
+  {| f_fed := cur; f_eid := eid; f_idx := idx; f_role := ro |}.
+
+(* every resolution is judged against the documents loaded most recently *)
+Fixpoint fed_holds (cur : federation) (steps : list fstep) : bool :=
+  match steps with
+  | [] => true
+  | FLoad fed _ :: r => fed_holds fed r
+  | FResolve eid _ idx ro _ dest :: r => artfed_spec_b (fres_of cur eid idx ro) dest && fed_holds cur r
+  end.
+
+(* classes of the failing resolutions *)
+Fixpoint fed_classes (cur : federation) (steps : list fstep) : list nat :=
+  match steps with
+  | [] => []
+  | FLoad fed _ :: r => fed_classes fed r
+  | FResolve eid _ idx ro _ dest :: r =>
+      let x := fres_of cur eid idx ro in
+      (if artfed_spec_b x dest then [] else [if idx_ok idx then (if spelling_ok x then 0 else 6) else 1])
+      ++ fed_classes cur r
+  end.
 
 Definition pairs_eqb := attrs_eqb.
 
@@ -88,6 +139,7 @@ Definition agrees (c : case) : bool :=
       String.eqb (create_artifact (fun _ => a_sid x) (a_eid x) (a_handle x) (a_idx x)) art
       && ares_eqb (artifact2destination (a_sm x) art) dest
   | KArtRaw sm art dest => ares_eqb (artifact2destination sm art) dest
+  | KArtFed sha steps => fed_agrees (tab_sha1 sha) [] steps
   end.
 
 Definition holds (c : case) : bool :=
@@ -104,10 +156,11 @@ Definition holds (c : case) : bool :=
          | None => true                           (* not parseable XML: no claim *)
          end
   | KArt x _ dest => art_spec_b x dest
+  | KArtFed _ steps => fed_holds [] steps
   | _ => true
   end.
 
-(* finding classes (consulted only when [holds] is false).  Class 1 is open; classes 2, 3, 4 and 5
+(* finding classes (consulted only when [holds] is false).  Class 1 is open; classes 2, 3, 4, 5 and 6
    are repaired in /repo (findings/C14.json: status fixed), so a case that falls into them
    is reported as a VIOLATION again: the class only names the regression. *)
 Definition url_cls (dest : string) (repaired : nat) (was_ok : bool) : nat :=
@@ -120,6 +173,11 @@ Definition cls (c : case) : nat :=
   | KArtUrl x _ => url_cls (u_dest x) 3 (dest_plain (u_dest x))
   | KUriUrl x _ => url_cls (i_dest x) 3 (dest_plain (i_dest x))
   | KSoap t _ _ _ => if body_ok t then 0 else 4
+  | KArtFed _ steps =>
+      (* an unclassified failure anywhere in the sequence wins; class 6: index spelled with leading zeros
+         (repaired by fbf0c2eb, status fixed: the class only names the regression) *)
+      let l := fed_classes [] steps in
+      if existsb (Nat.eqb 0) l then 0 else hd 0 l
   | _ => 0
   end.
 
@@ -130,7 +188,18 @@ Inductive shown :=
 | SStr (a b : string) | SOpt (a b : option string) | SPairs (a : list (string * string))
 | SForm (f : option string) (r : ures) (toks : option (option (list token))) (sb : bool)
 | SUrl (u : option string) (r : ures) (q : list (string * string)) (sb : bool)
-| SArt (a : string) (d : ares) (sb : bool) | SU (r : ures) | SNone.
+| SArt (a : string) (d : ares) (sb : bool) | SU (r : ures) | SNone
+| SFed (l : list (nat + (ares * bool))).
+
+(* per step: size of the model's SourceID table after a load; model result and spec verdict of a resolution *)
+Fixpoint fed_shown (sha : string -> string) (cur : federation) (sm : fsourcemap) (steps : list fstep)
+  : list (nat + (ares * bool)) :=
+  match steps with
+  | [] => []
+  | FLoad fed _ :: r => let m := store_source_id sha fed in inl (length m) :: fed_shown sha fed m r
+  | FResolve eid h idx ro art dest :: r =>
+      inr (artifact2destination (project ro sm) art, artfed_spec_b (fres_of cur eid idx ro) dest) :: fed_shown sha cur sm r
+  end.
 
 Definition explain (c : case) : shown * bool * bool * nat :=
   (match c with
@@ -161,4 +230,5 @@ Definition explain (c : case) : shown * bool * bool * nat :=
    | KArt x art dest => SArt (create_artifact (fun _ => a_sid x) (a_eid x) (a_handle x) (a_idx x))
                              (artifact2destination (a_sm x) art) (art_spec_b x dest)
    | KArtRaw sm art _ => SArt "" (artifact2destination sm art) true
+   | KArtFed sha steps => SFed (fed_shown (tab_sha1 sha) [] [] steps)
    end, agrees c, holds c, cls c).
